@@ -56,6 +56,11 @@ def run(ctx):
     C04.wire_acc(ctx, facts)
     C04.wire_mul(ctx, facts)
     downgrade_users(ctx, facts)
+    C04.order_prf(ctx, facts)          # validate_record precedes the reveals of the PRF
+    from rules import shufalg, C05, C15
+    shufalg.tags(ctx, facts, "TAG")    # what the shuffle verification hashes per row; keys ++ ONE
+    C05.key_cover(ctx, facts)          # one MAC key per 32-bit word of the row
+    C15.chain(ctx, facts)              # validated_seq_join validates every record it yields
     ctx.assume("cryptographic soundness of DZKP / MAC / hash checks is not decided; only that they are invoked, ordered and gate success")
 
 
